@@ -62,7 +62,7 @@ Theorem scored_convex_polygon_packing_no_overlap (st : pstateR) (l : list segR) 
   wf_state st -> rigid_inputs st -> p_shape NumR st = Poly l -> l <> [] ->
   p_radius NumR st = shape_radius NumR fmin_ (p_shape NumR st) ->
   packed_score NumR st <> None ->
-  forall i j (n m : Z), (i < length (p_syms NumR st))%nat -> (j < length (p_syms NumR st))%nat ->
+  forall i j (n m : Z), (i < copies st)%nat -> (j < copies st)%nat ->
   ~ (i = j /\ n = 0%Z /\ m = 0%Z) ->
   let P := placed_poly (copy st i) l in let Q := placed_poly (image st j n m) l in
   forall sP sQ, convex sP P -> convex sQ Q -> closed P -> closed Q ->
@@ -74,12 +74,9 @@ Proof.
   destruct (scored_convex_polygon_packing st l Hwf Hshape Hscore i j n m Hi Hj Hdist sP sQ HcP HcQ HclP HclQ x HxP HxQ)
     as [Hfar|Hnest]; [exfalso|exact Hnest].
   (* the placements are affine and rigid *)
-  assert (Hpl : forall q, (q < length (p_syms NumR st))%nat ->
-            affine_row (nth q (relative_positions NumR st) dflt) /\ rigid (nth q (relative_positions NumR st) dflt)).
-  { intros q Hq. split; [apply (nth_rel_spec st q Hwf Hq)|].
-    unfold relative_positions. rewrite positions_nth by exact Hq.
-    destruct Hwf as [Hs _ _ _ _ _]. rewrite Forall_forall in Hs, Hrig.
-    apply placement_rigid; [apply Hs|apply Hrig|exact Hcs]; now apply nth_In. }
+  assert (Hpl : forall q, (q < copies st)%nat ->
+            affine_row (nth q (relative_positions NumR st) dflt) /\ rigid (nth q (relative_positions NumR st) dflt))
+    by (intros q Hq; apply rel_rigid; [exact Hwf|split; assumption|exact Hq]).
   destruct (Hpl i Hi) as [Ai Gi]. destruct (Hpl j Hj) as [Aj Gj].
   assert (Ac : affine_row (copy st i) /\ rigid (copy st i)).
   { rewrite (copy_is_cart st i Hi). split; [exact Ai|exact Gi]. }
@@ -182,7 +179,7 @@ Theorem scored_convex_shape_packing_no_overlap (st : pstateR) (l : list segR) (f
   wf_state st -> rigid_inputs st -> p_shape NumR st = Poly l -> l <> [] -> convex sigma l -> closed l ->
   p_radius NumR st = shape_radius NumR fmin_ (p_shape NumR st) ->
   packed_score NumR st <> None ->
-  forall i j (n m : Z), (i < length (p_syms NumR st))%nat -> (j < length (p_syms NumR st))%nat ->
+  forall i j (n m : Z), (i < copies st)%nat -> (j < copies st)%nat ->
   ~ (i = j /\ n = 0%Z /\ m = 0%Z) ->
   let P := placed_poly (copy st i) l in let Q := placed_poly (image st j n m) l in
   forall x, strictly_inside (sigma * det2 (copy st i)) P x -> strictly_inside (sigma * det2 (image st j n m)) Q x ->
@@ -191,12 +188,9 @@ Theorem scored_convex_shape_packing_no_overlap (st : pstateR) (l : list segR) (f
 Proof.
   intros Hwf Hri Hshape Hne Hcv Hcl Hrad Hscore i j n m Hi Hj Hdist P Q x HxP HxQ.
   destruct Hri as [Hrig Hcs].
-  assert (Hpl : forall q, (q < length (p_syms NumR st))%nat ->
-            affine_row (nth q (relative_positions NumR st) dflt) /\ rigid (nth q (relative_positions NumR st) dflt)).
-  { intros q Hq. split; [apply (nth_rel_spec st q Hwf Hq)|].
-    unfold relative_positions. rewrite positions_nth by exact Hq.
-    destruct Hwf as [Hs _ _ _ _ _]. rewrite Forall_forall in Hs, Hrig.
-    apply placement_rigid; [apply Hs|apply Hrig|exact Hcs]; now apply nth_In. }
+  assert (Hpl : forall q, (q < copies st)%nat ->
+            affine_row (nth q (relative_positions NumR st) dflt) /\ rigid (nth q (relative_positions NumR st) dflt))
+    by (intros q Hq; apply rel_rigid; [exact Hwf|split; assumption|exact Hq]).
   destruct (Hpl i Hi) as [Ai Gi]. destruct (Hpl j Hj) as [Aj Gj].
   assert (Ac : affine_row (copy st i) /\ rigid (copy st i)).
   { rewrite (copy_is_cart st i Hi). split; [exact Ai|exact Gi]. }
@@ -222,7 +216,7 @@ Theorem scored_regular_polygon_packing_no_overlap (st : pstateR) (n : nat) (fmin
   wf_state st -> rigid_inputs st -> p_shape NumR st = Poly (polygon NumR PI sin cos n) ->
   p_radius NumR st = shape_radius NumR fmin_ (p_shape NumR st) ->
   packed_score NumR st <> None ->
-  forall i j (a b : Z), (i < length (p_syms NumR st))%nat -> (j < length (p_syms NumR st))%nat ->
+  forall i j (a b : Z), (i < copies st)%nat -> (j < copies st)%nat ->
   ~ (i = j /\ a = 0%Z /\ b = 0%Z) ->
   let l := polygon NumR PI sin cos n in
   let P := placed_poly (copy st i) l in let Q := placed_poly (image st j a b) l in
